@@ -209,6 +209,11 @@ class Interp:
             return env, True
         if isinstance(s, ast.If):
             self.expr(s.test, env)
+            dec = D.decide(self, s.test, env) if hasattr(D, 'decide') else None
+            if dec is True:
+                return self.block(s.body, D.refine(self, s.test, True, dict(env)))
+            if dec is False:
+                return self.block(s.orelse, D.refine(self, s.test, False, dict(env)))
             et, tt = self.block(s.body, D.refine(self, s.test, True, dict(env)))
             ef, tf = self.block(s.orelse, D.refine(self, s.test, False, dict(env)))
             if tt and tf:
